@@ -104,6 +104,8 @@ def main(argv=None):
         print(f'UNDECIDED property={prop}: no proof units (zero obligations is an error, not a pass)')
         return 2
     timeout_ms = 10000 if args.tier == 'quick' else 60000
+    from . import core as _core
+    _core.CROSSCHECK['per_clause'] = int(os.environ.get('VERIF_CROSSCHECK', '0' if args.tier == 'quick' else '2'))
     repo = Repo()
     results = _run_units(units, timeout_ms, seed)
     for r in results:
@@ -123,7 +125,7 @@ def main(argv=None):
     known = [k for k in load_known_findings() if k.get('property') == prop]
     by_name = {r.unit.name: r for r in results}
     violations, undecided, crashes, known_hits = [], [], [], []
-    replay_dir = VERIF / 'replays' / prop
+    replay_dir = Path(os.environ.get('VERIF_REPLAY_DIR', str(VERIF / 'replays'))) / prop
     if replay_dir.exists() and not args.unit:
         import shutil
         shutil.rmtree(replay_dir, ignore_errors=True)     # replay files belong to one run
@@ -321,6 +323,7 @@ def write_evidence(prop, tier, seed, results, bounded, obligations, discharged, 
     trusted = []
     assumed = []
     samples = []
+    cross = {}
     by_backend = {}
     solver_s = 0.0
     models_used = set()
@@ -337,6 +340,8 @@ def write_evidence(prop, tier, seed, results, bounded, obligations, discharged, 
             if a not in assumed:
                 assumed.append(a)
         samples += r.samples[:2]
+        for k_, v_ in getattr(r, 'cross', {}).items():
+            cross[k_] = cross.get(k_, 0) + v_
         solver_s += r.solver_seconds
         models_used |= r.models_used
         for c in r.clauses.values():
@@ -365,6 +370,9 @@ def write_evidence(prop, tier, seed, results, bounded, obligations, discharged, 
         units=units, by_backend=by_backend, solver_seconds=round(solver_s, 2),
         samples=samples[:6] or [dict(note='no obligation discharged on this run')],
         preconditions=assumed,
+        independent_recheck=dict(solver='/usr/bin/cvc5 on the SMT-LIB dump of path condition and negated goal, for a sample of the obligations z3 discharged '
+                                        '(thorough tier: 2 per clause and unit)', agreed_unsat=cross.get('unsat', 0), cvc5_unknown_or_timeout=cross.get('unknown', 0),
+                                 cvc5_error=cross.get('error', 0), disagreed=cross.get('sat', 0)),
         known_findings=[dict(obligation=ob, text=k.get('text')) for k, ob in known_hits],
         bounded=[{k: v for k, v in b.items() if k != 'violations'} for b in bounded],
         explanation=getattr(cm, 'EXPLANATION', ''),
